@@ -225,6 +225,11 @@ def r3(ctx):
             if f.mod.startswith("batchie.cli.") and f.name == "main":
                 env = {k: x for k, x in single_defs(f.node).items() if k != "args"}
                 v = inline(val, env) if val is not None else None
+                if isinstance(v, ast.Name):
+                    # bound in several arms (`if policy: rng = ..  else: rng = ..`): one value if every binding is the same expression
+                    defs_ = [n_.value for n_ in walk_own(f.node) if isinstance(n_, ast.Assign) and len(n_.targets) == 1 and isinstance(n_.targets[0], ast.Name) and n_.targets[0].id == v.id]
+                    if len(defs_) > 1 and len({U(d_) for d_ in defs_}) == 1:
+                        v = inline(defs_[0], env)
                 ok = v is not None and isinstance(v, ast.Call) and U(v.func) == "get_prng_from_seed_argument" and [U(a_) for a_ in list(v.args) + [k_.value for k_ in v.keywords]] == ["args"]
                 ctx.check("R3", site, ok, "generator derives from get_prng_from_seed_argument(args)",
                           f"the command passes rng=`{U(v)[:60]}` which does not derive from --seed")
